@@ -341,6 +341,17 @@ def _check_image(ctx, d, ds, fr, reqs, pending):
                         ctx.fail(case, 'reader frame differs from pydicom', site='read_frame')
                 elif st2 == 'ok':
                     ctx.fail(case, 'reader accepted out-of-range index (wrapped?)', site='read_frame')
+            # any order, with repeats and refused requests in between: a read must not depend on the reads before it
+            ro = ctx.rng('reader-order', d['idx'])
+            order = [ro.randrange(-1, n + 1) for _ in range(min(2 * n + 2, 14))]
+            for i in order:
+                st2, val = _fetch(rd.read_frame, i, correct_color=False)
+                ctx.case(path='reader/any-order', inrange=0 <= i < n)
+                if 0 <= i < n and (st2 != 'ok' or not np.array_equal(np.asarray(val).astype(np.int64), ref[i].astype(np.int64))):
+                    ctx.fail({'image': d, 'path': 'reader', 'i': i, 'history': order}, 'reader frame differs from pydicom when frames are read in this order',
+                             site='read_frame/any-order')
+                elif not 0 <= i < n and st2 == 'ok':
+                    ctx.fail({'image': d, 'path': 'reader', 'i': i, 'history': order}, 'reader accepted out-of-range index', site='read_frame/any-order')
     # L1: 1-bit PixelData is the model's packing
     if d['bits'] == 1:
         reqs.append(('pack', {'bits': [bool(x) for x in np.asarray(fr).reshape(-1)]}))
